@@ -19,8 +19,10 @@ from pathlib import Path
 
 ROOT = Path(__file__).resolve().parent.parent
 REPO = Path(os.environ.get("VERIF_REPO", "/repo"))
-COQ = ROOT / "coq"
-BUILD = ROOT / "build"
+# runs against a seeded change / scratch copy may use their OWN copy of the Coq tree and build directory
+# (tools/seedtest.py), so that regenerated coq/gen files never leak between concurrent runs
+COQ = Path(os.environ.get("VERIF_COQ_DIR") or (ROOT / "coq"))
+BUILD = Path(os.environ.get("VERIF_BUILD_DIR") or (ROOT / "build"))
 PY = "/venv/bin/python"
 
 # error enum shared with coq/theories/Base.v
@@ -210,7 +212,9 @@ def run_translators(names):
     """run translators/<name>.py /repo ; returns (all_ok, messages)"""
     ok, msgs = True, []
     for n in names:
-        rc, out = sh([PY, str(ROOT / "translators" / f"{n}.py"), str(REPO)], timeout=300)
+        gen_name = {"effectors": "EffectorsGen.v", "rwlock": "RWLockGen.v", "synced": "SyncedGen.v", "asyncdiff": "AsyncGen.v"}.get(n)
+        extra = [str(COQ / "gen" / gen_name)] if (gen_name and os.environ.get("VERIF_COQ_DIR")) else []
+        rc, out = sh([PY, str(ROOT / "translators" / f"{n}.py"), str(REPO)] + extra, timeout=300)
         if rc != 0:
             ok = False
         msgs.append(f"{n}: rc={rc} {out.strip()[-400:]}")
@@ -360,6 +364,11 @@ def vm_crosscheck(prop, requires, oracle_fn, reqs, expected, chunk=300):
         f.write_text("\n".join(lines) + "\n")
         rc, out = sh(["coqc", "-Q", str(COQ / "theories"), "PyCasbin", "-Q", str(COQ / "gen"), "PyCasbinGen", f.name],
                      cwd=d, timeout=1200)
+        for junk in d.glob(f"cases_{k}.*"):
+            if junk.suffix != ".v" or (rc == 0 and "= true" in out):
+                junk.unlink(missing_ok=True)               # keep only the source of a failing chunk
+        for junk in d.glob(f".cases_{k}.*"):
+            junk.unlink(missing_ok=True)
         if rc != 0 or "= true" not in out:
             return False, n, out[-1500:]
         n += len(part)
